@@ -20,6 +20,8 @@ def gen_flat(rng):
     d.enums = gen.gen_enums(rng, rng.randint(0, 2))
     enames = [e[0] for e in d.enums]
     extra = []
+    d.msgs = []  # (binding name, struct name) in source order
+    used_ids = set()
     for k in range(rng.randint(1, 3)):
         fields = []
         total = 0
@@ -47,9 +49,28 @@ def gen_flat(rng):
             rng.shuffle(ids)
         fields = [(fn, ids[i], t) for i, (fn, _, t) in enumerate(fields)]
         d.structs.append((NAMES[k], fields))
-        extra.append(f'impl can for {NAMES[k]} {{\n    id: {rng.randint(0, 2047)},\n    device: "ecu",\n}}')
+        # bindings: the struct under its own name, under an alias only (`as`), or both (two messages of one struct);
+        # the C API of a message carries the *binding's* name
+        r = rng.random()
+        bnames = [NAMES[k]] if r < 0.6 else [NAMES[k] + "Fast"] if r < 0.75 else [NAMES[k], NAMES[k] + "Fast"] if r < 0.9 \
+            else [NAMES[k] + "Slow", NAMES[k] + "Fast"]
+        for bn in bnames:
+            while True:
+                fid = rng.randint(0, 2047)
+                if fid not in used_ids:
+                    break
+            used_ids.add(fid)
+            alias = "" if bn == NAMES[k] else f" as {bn}"
+            extra.append(f'impl can for {NAMES[k]}{alias} {{\n    id: {fid},\n    device: "ecu",\n}}')
+            d.msgs.append((bn, NAMES[k]))
     d.extra = "\n".join(extra) + "\n"
     return d
+
+
+def permuted(d, rng):
+    p = d.permuted(rng)
+    p.msgs = list(d.msgs)
+    return p
 
 
 def leaf_values(rng, d, name):
@@ -79,7 +100,8 @@ def main_c(d):
     out.append("static void pf(const CanFrame *f) { printf(\"E %u %u\", (unsigned) f->id, (unsigned) f->dlc);"
                " for (int i = 0; i < 8; i++) printf(\" %u\", (unsigned) f->data[i]); printf(\"\\n\"); }")
     out.append("int main(void) {\n    int mi;\n    while (scanf(\"%d\", &mi) == 1) {")
-    for k, (name, fs) in enumerate(d.structs):
+    for k, (name, sname) in enumerate(d.msgs):
+        fs = d.struct(sname)
         sn = snake(name)
         out.append(f"        if (mi == {k}) {{")
         out.append(f"            CanMsg{name} m; memset(&m, 0, sizeof m);")
@@ -162,15 +184,16 @@ def run_core(rep, prop, tier, rng):
     descs = [gen_flat(rng) for _ in range(n)]
     if prop == "C15":
         descs = descs[: n // 2]
-        descs = descs + [d.permuted(rng) for d in descs]
+        descs = descs + [permuted(d, rng) for d in descs]
     gens = run_cases("harness.cbuild", "w_gen_c", [{"text": d.text()} for d in descs], timeout_s=60)
     vals = []
     for k, d in enumerate(descs):
         vs = []
         base = descs[k - len(descs) // 2] if prop == "C15" and k >= len(descs) // 2 else None
-        for mi, (name, fs) in enumerate(d.structs):
+        for mi, (name, sname) in enumerate(d.msgs):
+            rep.hist("binding", "own name" if name == sname else "alias")
             for _ in range(nv):
-                vs.append((mi, leaf_values(rng, d, name)))
+                vs.append((mi, leaf_values(rng, d, sname)))
         vals.append(vs)
     if prop == "C15":
         half = len(descs) // 2
@@ -208,8 +231,8 @@ def run_core(rep, prop, tier, rng):
         sd = gens[k]["ok"]["schema"]
         w = schema_to_wire(sd)
         can_ix = [i for i, im in enumerate(sd["impls"]) if im["protocol"] == "can"]
-        for mi, (name, fs) in enumerate(d.structs):
-            ix = next(i for i in can_ix if sd["impls"][i]["type"] == name)
+        for mi, (name, sname) in enumerate(d.msgs):
+            ix = next(i for i in can_ix if sd["impls"][i]["name"] == name and sd["impls"][i]["type"] == sname)
             lcases.append({"op": "canc", "schema": w, "impl": ix, "values": [vs for m2, vs in vals[k] if m2 == mi]})
             lidx.append((k, mi))
     mres = dict(zip(lidx, run_driver_parallel(lcases)))
@@ -234,8 +257,8 @@ def run_core(rep, prop, tier, rng):
         counters = {}
         res_k = []
         for j, (mi, vs) in enumerate(vals[k]):
-            name, fs = d.structs[mi]
-            sf = d.sorted_fields(name)
+            name, sname = d.msgs[mi]
+            sf = d.sorted_fields(sname)
             e = [int(x) for x in lines[2 * j].split()[1:]]
             dec = [int(x) for x in lines[2 * j + 1].split()[1:]]
             res_k.append((mi, e))
